@@ -96,6 +96,59 @@ def render(sc):
     return "\n".join(out) + "\n", files
 
 
+# ------------------------------------------------------------------------------------------------------------ running
+class CaseResult:
+    __slots__ = ("rc", "out", "err", "timed_out", "signal")
+
+    def __init__(self, rc, out, err, timed_out, signal):
+        self.rc, self.out, self.err, self.timed_out, self.signal = rc, out, err, timed_out, signal
+
+
+def run_batch(exe, scenarios, prefix, per_case_budget=120):
+    """Run the scenarios one after the other, each in its own forked process of ONE harness invocation (`avail --batch`): the
+    framework's process runner costs seconds per process on a loaded machine. Returns one CaseResult per scenario."""
+    import os
+    import shutil
+    import tempfile
+    from verif import proc
+    d = tempfile.mkdtemp(prefix=prefix)
+    try:
+        for i, sc in enumerate(scenarios):
+            cd = os.path.join(d, str(i))
+            os.mkdir(cd)
+            text, files = render(sc)
+            files = dict(files)
+            files["stdin.txt"] = text
+            files["args.txt"] = "\n".join(["--log=root.thres:critical"] + sc["flags"] + sc["hflags"]) + "\n"
+            for fn, content in files.items():
+                with open(os.path.join(cd, fn), "w") as f:
+                    f.write(content)
+        res = proc.run([exe, "--batch", d, str(len(scenarios)), str(per_case_budget)], timeout=per_case_budget * len(scenarios) + 60)
+        out = []
+        for i in range(len(scenarios)):
+            cd = os.path.join(d, str(i))
+
+            def rd(fn):
+                try:
+                    with open(os.path.join(cd, fn), errors="replace") as f:
+                        return f.read()
+                except OSError:
+                    return ""
+            st = rd("status.txt").split()
+            if not st:                       # the batch driver itself was stopped by the outer watchdog
+                out.append(CaseResult(None, rd("out.txt"), rd("err.txt"), True, 0))
+            elif st[0] == "timeout":
+                out.append(CaseResult(None, rd("out.txt"), rd("err.txt"), True, 0))
+            elif st[0] == "signal":
+                out.append(CaseResult(-int(st[1]), rd("out.txt"), rd("err.txt"), False, int(st[1])))
+            else:
+                rc = int(st[1])
+                out.append(CaseResult(rc, rd("out.txt"), rd("err.txt"), False, rc - 128 if 128 < rc < 160 else 0))
+        return out
+    finally:
+        shutil.rmtree(d, ignore_errors=True)
+
+
 # ------------------------------------------------------------------------------------------------------------ numbers
 class Grid:
     def __init__(self, rng, mode):
@@ -138,7 +191,9 @@ def gen_profile(rng, grid, kind, base, zero_ok=False, many=False, first_zero=Non
     elif kind == "bw":
         pool = [base / 4, base / 2, base / 2, base, base, base * 2] + ([0.0, 0.0] if zero_ok else [])
     elif kind == "lat":
-        pool = [0.0, 0.125, 0.25, 0.5, 1.0, base] if grid.mode == "exact" else [0.0, 0.1, 0.01, 0.3, 1.0, base]
+        pool = [0.125, 0.25, 0.5, 1.0, base, base] if grid.mode == "exact" else [0.1, 0.01, 0.3, 1.0, base, base]
+        if rng.random() < 0.15:
+            pool.append(0.0)
     else:
         pool = [0.0, 1.0, 1.0, 0.0, 1.0, 2.0]          # "any other value than zero means ON"
     vals = []
@@ -234,6 +289,8 @@ def c22_scenario(rng, ti=False, zero=False, many=False):
             if ti:
                 r = rng.random()
                 p = gen_profile(rng, grid, "speed", 1.0, zero_ok=False, many=many, first_zero=(r < 0.7), must_loop=True)
+                while len(p["pts"]) < 2:      # a one-point profile is a FIXED trace for TI (get_available_speed() crashes on it: directed case)
+                    p = gen_profile(rng, grid, "speed", 1.0, zero_ok=False, many=many, first_zero=(r < 0.7), must_loop=True)
             else:
                 p = gen_profile(rng, grid, "speed", 1.0, zero_ok=zero, many=many and rng.random() < 0.5)
             p["res"] = h["name"]
@@ -258,7 +315,7 @@ def c22_scenario(rng, ti=False, zero=False, many=False):
                 p = gen_profile(rng, grid, "bw", bw, zero_ok=zero, many=many and rng.random() < 0.3)
                 p["res"] = l["name"]
                 sc["profiles"].append(p)
-            if rng.random() < 0.35:
+            if rng.random() < 0.25:
                 p = gen_profile(rng, grid, "lat", lat)
                 p["res"] = l["name"]
                 sc["profiles"].append(p)
@@ -432,7 +489,7 @@ def c23_scenario(rng):
             dur = grid.step * rng.choice([1, 2, 4, 4, 8, 16])
             thr = 1 if rng.random() < 0.7 else rng.randint(1, h["cores"])
             bound = 0.0
-            if rng.random() < 0.2:
+            if thr == 1 and rng.random() < 0.2:
                 bound = min(h["speeds"]) * rng.choice([0.25, 0.5])
             asyn = rng.random() < 0.6
             ops.append(["until", t])
@@ -473,3 +530,47 @@ def add_energy_observer(sc, rng, grid, tmax, dates, n=8):
         ops += [["until", x], ["energy"]]
     sc["actors"].append({"name": "zobs", "host": "obs", "ops": ops})
     return sorted(pts)
+
+
+def c23_link_scenario(rng):
+    """Link energy: one route of 1-2 SHARED links with a wattage_range, messages one after the other or two at a time."""
+    mode = "exact"
+    grid = Grid(rng, mode)
+    sc = {"mode": mode, "via": "xml" if rng.random() < 0.25 else "api", "profiles": [], "plugins": ["link_energy"], "actors": [], "step": grid.step,
+          "flags": ["--cfg=network/model:CM02", "--cfg=network/TCP-gamma:0", "--cfg=network/crosstraffic:0"] +
+                   (["--cfg=network/optim:Full"] if rng.random() < 0.25 else []), "hflags": []}
+    sc["hosts"] = [{"name": "obs", "cores": 1, "speeds": [1.0]}, {"name": "n1", "cores": 1, "speeds": [1.0]}]
+    nolat = rng.random() < 0.6
+    sc["links"] = []
+    for k in range(rng.choice([1, 1, 2])):
+        idle = float(rng.choice([0, 8, 16]))
+        busy = idle + float(rng.choice([0, 16, 64]))
+        sc["links"].append({"name": "l1" + "ab"[k], "bw": rng.choice([4.0, 16.0, 1024.0]), "lat": 0.0 if nolat else rng.choice([0.0, 0.25, 0.5]),
+                            "policy": "SHARED", "props": {"wattage_range": "%s:%s" % (num(idle), num(busy))}, "energy": {"idle": idle, "busy": busy}})
+    if not nolat and all(l["lat"] == 0 for l in sc["links"]):
+        sc["links"][0]["lat"] = 0.25
+    sc["routes"] = [{"src": "obs", "dst": "n1", "links": [l["name"] for l in sc["links"]]}]
+    bw = min(l["bw"] for l in sc["links"])
+    tmax = grid.step * 32
+    idn = 0
+    for a in range(rng.choice([1, 1, 2])):
+        ops = []
+        t = 0.0
+        for _ in range(rng.randint(1, 4)):
+            t = grid.date(t, t + tmax / 4)
+            idn += 1
+            ops += [["until", t], ["comm", "c%d" % idn, "obs", "n1", int(bw * grid.step * rng.choice([1, 2, 4, 8]))]]
+            if rng.random() < 0.5:
+                ops.append(["energy"])
+        sc["actors"].append({"name": "w%d" % a, "host": "obs", "ops": ops})
+    ops = []
+    for _ in range(4):
+        ops += [["until", grid.date(0, tmax * 3)], ["energy"]]
+    ops.sort(key=lambda o: 0)
+    dates = sorted(o[1] for o in ops if o[0] == "until")
+    ops = []
+    for d in dates:
+        ops += [["until", d], ["energy"]]
+    ops += [["until", tmax * 6], ["energy"]]
+    sc["actors"].append({"name": "zobs", "host": "obs", "ops": ops})
+    return sc
